@@ -13,4 +13,17 @@ PROPS = {
         lean_core=["Props.GenTie.Params", "Props.C16"], lean_code=["Props.GenTie.Subsidy", "Props.C16Code"],
         gen_funcs=["get_block_subsidy", "validate_sashimi_range"], harness="c16",
         assumptions=["Python int arithmetic is exact (unbounded)"]),
+    "C01": dict(
+        lean_core=["Props.C01"], lean_code=[], gen_funcs=[], harness="c01",
+        assumptions=["signature validity is an oracle in the driver (each listed triple is checked with python-ecdsa by the harness)",
+                     "scrypt replaced by sha256(password+salt) in harness and driver",
+                     "full validation = add_block above the checkpoint horizon (horizon lowered to -1 or 2 in the harness)"]),
+    "C02": dict(
+        lean_core=["Props.GenTie.Params", "Props.C16", "Props.C02"], lean_code=["Props.GenTie.Subsidy"],
+        gen_funcs=["get_block_subsidy", "validate_sashimi_range"], harness="c02",
+        assumptions=["as C01"]),
+    "C05": dict(
+        lean_core=["Props.GenTie.Params", "Props.C05"], lean_code=["Props.GenTie.Target", "Props.C05Code"],
+        gen_funcs=["calculate_new_target", "select_block_height"], harness="c05",
+        assumptions=["as C01", "elapsed time passed to calculate_new_target is non-negative (timestamps increase along validated chains)"]),
 }
